@@ -367,8 +367,17 @@ fn run_parser_on(src: impl std::io::Read + Clone + 'static, delivered: impl Fn()
     let items = std::cell::RefCell::new(vec![]);
     let fin = catch(|| {
         let mut reader = DeferredReader::from_read(src.clone());
-        reader.set_chunk_size(chunk);
-        let mut p = match Parser::new(LineReader::new(reader), Config::default()) {
+        if chunk < crate::eng_cnf::CTOR_BOXED {
+            reader.set_chunk_size(chunk);
+        }
+        let made = if chunk == crate::eng_cnf::CTOR_FROM_READ {
+            Parser::from_read(src.clone(), Config::default())
+        } else if chunk == crate::eng_cnf::CTOR_BOXED {
+            Parser::from_boxed_dyn_read(Box::new(src.clone()), Config::default())
+        } else {
+            Parser::new(LineReader::new(reader), Config::default())
+        };
+        let mut p = match made {
             Ok(p) => p,
             Err(e) => return err_obs(&e),
         };
